@@ -267,6 +267,13 @@ def _mutants():
         'ack_to_first_block': src(lg.Log, '_find_block', 'if block.id == id:', 'if True:'),
         'sync_put_twice': src(sl.SyncLogger, '_log_callback', 'self._queue.put((ts, data, logblock))',
                               'self._queue.put((ts, data, logblock)); self._queue.put((ts, data, logblock))'),
+        'size_from_stored_type': src(lg.Log, 'add_config', 'get_size_from_id(var.fetch_as)', 'get_size_from_id(var.stored_as)'),
+        'sync_marker_on_every_disconnect': src(sl.SyncLogger, 'disconnect', 'self._is_connected = False',
+                                               'self._is_connected = False; self._queue.put(self.DISCONNECT_EVENT)'),
+        'create_reuses_packet': both(
+            src(lg.LogConfig, 'create', "        self.pending += 1\n",
+                "        self.pending += 1\n        pk = CRTPPacket()\n        pk.set_header(5, CHAN_SETTINGS)\n"),
+            src(lg.LogConfig, 'create', "            pk = CRTPPacket()\n            pk.set_header(5, CHAN_SETTINGS)\n", "")),
         'sync_stop_when_empty': src(sl.SyncLogger, '__next__', 'if not self._is_connected:',
                                     'if not self._is_connected or self._queue.empty():'),
         'sync_no_end_marker': src(sl.SyncLogger, '_disconnected', 'self._queue.put(self.DISCONNECT_EVENT)', 'pass'),
@@ -327,6 +334,24 @@ class Exec:
             self._hook_config(i + 1, lc)
             self.lcs.append(lc)
         self.logsvc.kinds_for = self._kinds_for
+        # sc['lazy']: like RadioDriver (out_queue.put(pk), the radio thread reads pk.data later) the link keeps the packet
+        # *object* and serialises it at the next link operation (next send, end of the call, next packet handled)
+        self.lazy = False
+        self.held_up = None
+        orig_uplink = dev.uplink
+
+        def uplink(link, pk):
+            if not self.lazy:
+                return orig_uplink(link, pk)
+            self.flush_up()
+            self.held_up = (link, pk)
+
+        def flush_up():
+            h, self.held_up = self.held_up, None
+            if h is not None:
+                orig_uplink(*h)
+        dev.uplink = uplink
+        self.flush_up = flush_up
         cf.connected.add_callback(lambda uri: setattr(self, 'connected', self.connected + 1))
         cf.disconnected.add_callback(self._on_disconnected)
         cf.packet_received.add_callback(self._rx_begin)
@@ -378,6 +403,7 @@ class Exec:
                 res = type(e).__name__
                 raise
             finally:
+                self.flush_up()
                 self.ev.append({'e': kind, 'c': c, 'via': self.via, 'res': res,
                                 'sent': [list(m) for m in self.logsvc.msgs[n0:]], 'before': before,
                                 'after': self.flags(), 'ncbs': self._take_ncbs(), 'st': self.project()})
@@ -418,6 +444,7 @@ class Exec:
             return
         b, self.begin = self.begin, None
         d = list(pk.data)
+        self.flush_up()
         if pk.channel == 1:
             cbs, self.cbs = self.cbs, []
             self.ev.append({'e': 'ack', 'cmd': d[0], 'id': d[1] if len(d) > 1 else 0, 'st_ack': d[2] if len(d) > 2 else 0,
@@ -478,6 +505,7 @@ class Exec:
     # -- driving
     def settle(self, horizon=5.0):
         s = self.s
+        self.flush_up()
         return s.run(until=lambda: not s.enabled()[0], horizon=s.now + horizon)
 
     def call(self, fn, horizon=30.0):
@@ -508,6 +536,7 @@ class Exec:
         if r != 'until':
             raise common.MachineryError('simulated connect did not finish (%s)' % r)
         self.settle()
+        self.lazy = bool(self.sc.get('lazy'))
 
     def bid(self, b):
         return self.lcs[int(b[1:]) - 1].id if isinstance(b, str) else b
@@ -553,6 +582,8 @@ class Exec:
                 self.logsvc.inject_next = st[1]
                 self.ev.append({'e': 'inject', 'status': st[1]})
         elif k == 'reconnect':
+            self.flush_up()
+            self.lazy = False
             self.call(cf.close_link)
             self.logsvc.emitted = []
             self.settle()
@@ -560,6 +591,8 @@ class Exec:
             self.connect()
             self.ev.append({'e': 'reconnect', 'before': before, 'after': self.flags(), 'st': self.project()})
         elif k == 'close':
+            self.flush_up()
+            self.lazy = False
             self.call(cf.close_link)
             self.logsvc.emitted = []
         elif k == 'open':
@@ -574,6 +607,16 @@ class Exec:
                     self.errors.append('data packet not consumed (%s)' % r)
         elif k == 'sync':
             self.start_sync(st[1])
+        elif k == 'sync_new':
+            self.start_sync(st[1], spawn=False)
+        elif k == 'sync_connect':
+            self.nconn = getattr(self, 'nconn', 0) + 1
+            self.call(self._sync_connect)
+        elif k == 'sync_iter':
+            self.consumer = self.s.spawn(self._sync_iterate, 'consumer')
+        elif k == 'sync_disconnect':
+            self.ev.append({'e': 'sdisc'})
+            self.call(self.logger.disconnect)
         elif k == 'race':
             self.race(self.bid(st[1]), st[2], st[3], st[4])
         self.settle()
@@ -593,7 +636,27 @@ class Exec:
         return True
 
     # -- SyncLogger
-    def start_sync(self, cs):
+    def _sync_connect(self):
+        self.ev.append({'e': 'sbegin'})
+        self.via = 'sync'
+        try:
+            self.logger.connect()
+        except Exception as e:
+            self.ev.append({'e': 'sfail', 'exc': type(e).__name__})
+            return False
+        finally:
+            self.via = 'user'
+        self.ev.append({'e': 'sconnected'})
+        return True
+
+    def _sync_iterate(self):
+        for entry in self.logger:
+            ts, data, blk = entry
+            c = self.lcs.index(blk) + 1 if blk in self.lcs else 0
+            self.ev.append({'e': 'yield', 's': self._rec(c, ts, data)})
+        self.ev.append({'e': 'sstop'})
+
+    def start_sync(self, cs, spawn=True):
         from cflib.crazyflie.syncLogger import SyncLogger
         self.synccs = list(cs)
         cfgs = [self.lcs[c - 1] for c in cs]
@@ -607,22 +670,10 @@ class Exec:
         lg._log_callback = log_callback           # connect()/disconnect() register/remove this very object
 
         def consumer():
-            self.ev.append({'e': 'sbegin'})
-            self.via = 'sync'
-            try:
-                self.logger.connect()
-            except Exception as e:
-                self.ev.append({'e': 'sfail', 'exc': type(e).__name__})
-                return
-            finally:
-                self.via = 'user'
-            self.ev.append({'e': 'sconnected'})
-            for entry in self.logger:
-                ts, data, blk = entry
-                c = self.lcs.index(blk) + 1 if blk in self.lcs else 0
-                self.ev.append({'e': 'yield', 's': self._rec(c, ts, data)})
-            self.ev.append({'e': 'sstop'})
-        self.consumer = self.s.spawn(consumer, 'consumer')
+            if self._sync_connect():
+                self._sync_iterate()
+        if spawn:
+            self.consumer = self.s.spawn(consumer, 'consumer')
 
     def race(self, bid, n, src, seed):
         """n data packets in flight, then close_link from a user thread, all threads scheduled at random"""
@@ -630,6 +681,8 @@ class Exec:
         self.last_flags = self.flags()
         for i in range(n):
             self.emit(bid, [i & 0xFF, 1, 0], (src[0], src[1] + i) if src[0] != 'sweep' else src)
+        self.flush_up()
+        self.lazy = False
         closer = self.s.spawn(self.cf.close_link, 'closer')
         # uniform random choices, PCT priorities, or a starved consumer (samples are still queued at the disconnect)
         if seed % 3 == 0:
@@ -686,7 +739,7 @@ def execute(sc, mutant=None):
             trace = {'tocs': [[{'n': n, 't': t, 'i': i} for i, (n, t) in enumerate(toc) if i < 4 or n in used]
                               for toc in x.tocs + [x.table_of(x.nsess + 1)]],
                      'cfgs': x.cfgs0, 'sync': bool(x.synccs), 'synccs': x.synccs, 'idle_end': idle_end,
-                     'ev': x.ev, 'noconf': bool(sc.get('noconf')) or any(st[0] == 'race' for st in sc['steps']) or len(x.synccs) > 1,
+                     'ev': x.ev, 'noconf': bool(sc.get('noconf')) or any(st[0] == 'race' for st in sc['steps']) or len(x.synccs) > 1 or any(st[0].startswith('sync_') for st in sc['steps']),
                      'detail': {'errors': x.errors, 'dead': [t.get('traceback', '')[-400:] for t in dead]}}
             return trace
     finally:
@@ -768,14 +821,14 @@ def sc_static(tier, rng):
         vb = build_vars(b, modes[(j // 2 + 1) % 3], salt=j + 1)
         readd = (j // 2) % 4 == 0
         out.append({'toc': std_toc(), 'cfgs': [cfg(va, 10 * (1 + j % 254)), cfg(vb, 2540 - 10 * (j % 254))],
-                    'steps': life(1, j, readd) + life(2, j + 1, False), 'kind': 'sizes'})
+                    'steps': life(1, j, readd) + life(2, j + 1, False), 'kind': 'sizes', 'lazy': (j // 2) % 3 == 1})
     # uniform lists crossing 26 bytes and the 9/18/27-entry split points
     for sz in (1, 2, 4):
         for n in range(0, 28):
             if sz * n > 30 and n not in (9, 10, 18, 19, 26, 27):
                 continue
             out.append({'toc': std_toc(), 'cfgs': [cfg(build_vars([sz] * n, 'typed', salt=n)), EMPTY],
-                        'steps': life(1, n, True), 'kind': 'uniform'})
+                        'steps': life(1, n, True), 'kind': 'uniform', 'lazy': n % 2 == 0 or n in (19, 27)})
     for n in (1, 2, 8, 9):
         out.append({'toc': std_toc(), 'cfgs': [cfg(build_vars([2] * n, 'default', salt=n)), EMPTY],
                     'steps': life(1, n, True), 'kind': 'uniform-default'})
@@ -811,6 +864,16 @@ def sc_static(tier, rng):
                 out.append({'toc': std_toc(), 'cfgs': [cfg(vs), EMPTY], 'steps': life(1, nt + nm, False), 'kind': 'memory'})
     out.append({'toc': std_toc(), 'cfgs': [cfg([M('mem.first', 1, 1), V('v.x0', 1)]), cfg([V('v.x3', 4), M('mem.last', 8, 7, 0xFFFFFFFF)])],
                 'steps': life(1, 1, False) + life(2, 2, False), 'kind': 'memory'})
+    # raw-memory variables whose stored type has another size than the fetched one, payload at and around 26 bytes
+    # (the payload carries the fetched types): (fetch, stored, counts)
+    for (f, st_, ns) in ((7, 1, (6, 7)), (3, 4, (6, 7)), (1, 3, (25, 26, 27)), (4, 7, (26, 27)), (2, 7, (13, 14)), (8, 6, (13, 14)), (5, 1, (13, 14))):
+        for n in ns:
+            vs = [M('mem.s%d' % i, f, st_, 0x20000000 + 4 * i) for i in range(n)]
+            out.append({'toc': std_toc(), 'cfgs': [cfg(vs), EMPTY], 'steps': life(1, n + f, False), 'kind': 'memory-size',
+                        'lazy': n % 2 == 0})
+    out.append({'toc': std_toc(), 'cfgs': [cfg(build_vars([4] * 5, 'typed') + [M('mem.t', 7, 1), M('mem.u', 2, 6)]),
+                                           cfg(build_vars([4] * 5, 'typed') + [M('mem.t', 7, 1), M('mem.u', 8, 3), M('mem.v', 1, 7)])],
+                'steps': life(1, 3, False) + life(2, 4, False), 'kind': 'memory-size'})
     # minimal histories around re-add and raw memory
     out.append({'toc': std_toc(), 'cfgs': [cfg([V('v.x1', 0)]), EMPTY], 'steps': [('add', 1), ('reconnect',), ('add', 1)], 'kind': 'minimal'})
     out.append({'toc': std_toc(), 'cfgs': [cfg([V('v.x1', 2)]), EMPTY], 'steps': [('add', 1), ('reconnect',), ('add', 1)], 'kind': 'minimal'})
@@ -862,7 +925,8 @@ def sc_histories(tier, rng):
             if not _adds_once([('add', 1)] + list(seq)):
                 continue
             c = HIST_CFGS[(len(out)) % 2]
-            out.append({'toc': std_toc(), 'cfgs': [c, EMPTY], 'steps': [('add', 1)] + list(seq) + [('drain',)], 'kind': 'history'})
+            out.append({'toc': std_toc(), 'cfgs': [c, EMPTY], 'steps': [('add', 1)] + list(seq) + [('drain',)], 'kind': 'history',
+                        'lazy': len(out) % 4 == 1})
     # a few histories that do not start with add (calls on a never-added configuration)
     for seq in itertools.product([('start', 1), ('stop', 1), ('delete', 1), ('add', 1)], repeat=3):
         if not _adds_once(seq):
@@ -882,7 +946,7 @@ def sc_histories(tier, rng):
         seq = _drop_repeated_adds([('add', 1)] + seq)[1:]
         c1 = HIST_CFGS[i % 4]
         out.append({'toc': std_toc(), 'cfgs': [c1, cfg([V('v.x9', 0), V('v.x4', 5)]) if two else EMPTY],
-                    'steps': [('add', 1)] + seq + [('drain',)], 'kind': 'history-random'})
+                    'steps': [('add', 1)] + seq + [('drain',)], 'kind': 'history-random', 'lazy': i % 2 == 1})
     return out
 
 
@@ -957,6 +1021,27 @@ def sc_sync(tier, rng):
         out.append({'toc': std_toc(), 'cfgs': [c1, EMPTY], 'steps': [('inject', st), ('sync', [1]), ('drain',), ('reconnect',)], 'kind': 'sync'})
     # rejected configuration: connect() raises
     out.append({'toc': std_toc(), 'cfgs': [cfg([V('v.nope', 1)]), EMPTY], 'steps': [('sync', [1]), ('drain',), ('reconnect',)], 'kind': 'sync'})
+    # one SyncLogger object connected several times: user disconnect() of an idle / of a drained logger, link loss with a
+    # blocked consumer, then connect() again (same session or the next) and iterate
+    d1 = [('data', 'c1', [k, 4, 0], ('ext', k)) for k in range(2)]
+    d2 = [('data', 'c1', [k, 5, 0], ('rnd', k)) for k in range(3)]
+    out.append({'toc': std_toc(), 'cfgs': [c1, EMPTY], 'kind': 'sync-reuse',
+                'steps': [('sync_new', [1]), ('sync_connect',), ('drain',), ('sync_disconnect',), ('drain',), ('sync_connect',), ('drain',)] + d2 +
+                         [('sync_iter',), ('reconnect',)]})
+    out.append({'toc': std_toc(), 'cfgs': [c1, EMPTY], 'kind': 'sync-reuse',
+                'steps': [('sync_new', [1]), ('sync_connect',), ('drain',), ('sync_disconnect',), ('drain',), ('sync_connect',), ('drain',), ('sync_iter',)] + d2 +
+                         [('reconnect',)]})
+    out.append({'toc': std_toc(), 'cfgs': [c1, EMPTY], 'kind': 'sync-reuse',
+                'steps': [('sync_new', [1]), ('sync_connect',), ('drain',)] + d1 + [('sync_disconnect',), ('drain',), ('reconnect',), ('sync_connect',), ('drain',)] +
+                         d2 + [('sync_iter',), ('reconnect',)]})
+    # link lost while the consumer waits; the block is gone on the device (delete -> ENOENT clears the flags), connect() again
+    out.append({'toc': std_toc(), 'cfgs': [c1, EMPTY], 'kind': 'sync-reuse',
+                'steps': [('sync_new', [1]), ('sync_connect',), ('drain',), ('sync_iter',)] + d1 + [('reconnect',), ('delete', 1), ('drain',),
+                          ('sync_connect',), ('drain',), ('sync_iter',)] + d2 + [('reconnect',)]})
+    out.append({'toc': std_toc(), 'cfgs': [c1, c2], 'kind': 'sync-reuse',
+                'steps': [('sync_new', [1, 2]), ('sync_connect',), ('drain',), ('sync_iter',), ('data', 'c2', [1, 6, 0], ('ext', 1)), ('reconnect',),
+                          ('delete', 1), ('delete', 2), ('drain',), ('sync_connect',), ('drain',), ('sync_iter',), ('data', 'c1', [2, 6, 0], ('ext', 2)),
+                          ('data', 'c2', [3, 6, 0], ('rnd', 3)), ('reconnect',)]})
     nr = 60 if tier == 'quick' else 1500
     for i in range(nr):
         n = rng.randint(0, 6)
@@ -1296,6 +1381,11 @@ def sc_sensitivity(rng):
                                                              ('drain',), ('data', 'c1', [1, 1, 1], ('ext', 1)), ('stop', 1), ('drain',),
                                                              ('start', 1), ('drain',), ('delete', 1), ('delete', 2), ('drain',)]})
     out.append({'toc': std_toc(), 'cfgs': [c1, c2], 'steps': [('add', 1), ('start', 1), ('drain',), ('start', 1), ('stop', 1), ('drain',)]})
+    out.append({'toc': std_toc(), 'cfgs': [cfg(build_vars([1] * 20, 'typed', salt=1)), cfg(build_vars([2] * 11, 'typed', salt=2))],
+                'steps': life(1, 2, False) + life(2, 3, False), 'lazy': True})
+    out.append({'toc': std_toc(), 'cfgs': [cfg([M('mem.s%d' % i, 7, 1) for i in range(7)]), cfg([M('mem.r%d' % i, 1, 3) for i in range(26)])],
+                'steps': life(1, 2, False) + life(2, 3, False)})
+    out += [s for s in sc_sync('quick', rng) if s['kind'] == 'sync-reuse']
     ev = sc_evolve('quick', rng)
     out += [s for s in ev if s['kind'] == 'evolve-table'][:6] + [s for s in ev if s['kind'] == 'evolve-config'][:6]
     out += [s for s in sc_sync('quick', rng) if s['kind'] == 'sync'][:8]
@@ -1354,13 +1444,13 @@ def _tlc_job(job):
 
 
 BUG_CFGS = ['dup_readd', 'mem_raises', 'skip_on_split', 'size_lt', 'period_le_255', 'optimistic_start', 'ack_any_block',
-            'start_on_error', 'slice_by_stored', 'partial_resolve', 'reset_when_accepted', 'stale_layout']
+            'start_on_error', 'slice_by_stored', 'partial_resolve', 'reset_when_accepted', 'stale_layout', 'size_by_stored']
 
 
 def _design_checks(tier):
     """exhaustive design-spec checks + every bug configuration (must be refuted), a few TLC runs at a time"""
     from concurrent.futures import ThreadPoolExecutor
-    checks = ['MC_LogBlocks_static_%s.cfg' % tier, 'MC_LogBlocks_life_%s.cfg' % tier, 'MC_LogBlocks_evolve_%s.cfg' % tier, 'MC_LogBlocks_tables.cfg',
+    checks = ['MC_LogBlocks_static_%s.cfg' % tier, 'MC_LogBlocks_life_%s.cfg' % tier, 'MC_LogBlocks_evolve_%s.cfg' % tier, 'MC_LogBlocks_tables.cfg', 'MC_LogBlocks_memsize.cfg',
               'MC_LogBlocks_sync.cfg', 'MC_LogBlocks_sync_live.cfg']
     if tier == 'thorough':
         checks.append('MC_LogBlocks_two.cfg')
